@@ -49,12 +49,16 @@ UNUSED_FIELDS = {"container_len", "block_size", "data_size", "plaintext_hash_tre
 
 
 def patch(path, pos, new_bytes):
+    if pos < 0 or pos > (1 << 31):
+        return False       # an earlier damage made the offset table nonsensical: nothing to patch there
     with open(path, "r+b") as fh:
         fh.seek(pos)
         fh.write(new_bytes)
 
 
 def flip(path, pos, mask=0x01):
+    if pos < 0 or pos > (1 << 31):
+        return False
     with open(path, "r+b") as fh:
         fh.seek(pos)
         b = fh.read(1)
@@ -67,4 +71,4 @@ def flip(path, pos, mask=0x01):
 
 def truncate(path, length):
     with open(path, "r+b") as fh:
-        fh.truncate(length)
+        fh.truncate(max(0, min(length, 1 << 31)))
